@@ -271,23 +271,29 @@ pub fn drive_parens() -> Vec<String> {
     for f in ["-(-1)", "-(1%)", "(-1)%", "(1%)%", "-(2^2)", "(-2)^2", "2^(-2)", "SUM((1,5))", "1E16+(-1E16+1)", "(1=2)=(3=4)", "((1+2)*3)^2", "1-(2-(3-4))"] {
         formulas.push(f.to_string());
     }
-    for (loc, lang) in [("en", "en"), ("de", "de")] {
+    for f in ["SUM(1,2,3)", "SUM({1,2;3,4})", "SUM({1.5,2;3,#N/A})", "LAMBDA(x,y,x+y)(1,2)", "LAMBDA(x,[y],x)(1)", "IF(1<2,#N/A,#VALUE!)", "IF(ISERROR(#REF!),1.5,2)",
+              "LET(a,1.5,a+1)", "SUM(B1:B3,1.25)", "TRUE&FALSE", "IF(TRUE,1,2)", "-SUM(1,2)%", "SUM(1,2)^2", "@SUM(B1:B2)"] {
+        formulas.push(f.to_string());
+    }
+    // typed in English, shown in every language / locale, read back THERE: the same tree (C09, C10)
+    let (Ok(en_locale), Ok(en_language)) = (crate::locale::get_locale("en"), crate::language::get_language("en")) else { return vec!["no en".to_string()]; };
+    let cr = CellReferenceRC { sheet: "Sheet1".to_string(), row: 10, column: 10 };
+    for (loc, lang) in [("en", "en"), ("de", "de"), ("es", "es"), ("fr", "fr"), ("it", "it"), ("en-GB", "en"), ("de", "en"), ("en", "es")] {
         let (Ok(locale), Ok(language)) = (crate::locale::get_locale(loc), crate::language::get_language(lang)) else { fails.push(format!("no locale {loc}")); continue; };
+        let mut en_parser = Parser::new(vec!["Sheet1".to_string()], vec![], std::collections::HashMap::new(), en_locale, en_language);
         let mut parser = Parser::new(vec!["Sheet1".to_string()], vec![], std::collections::HashMap::new(), locale, language);
-        let cr = CellReferenceRC { sheet: "Sheet1".to_string(), row: 10, column: 10 };
-        for f0 in formulas.iter() {
-            let f = if loc == "de" { f0.replace(",", ";") } else { f0.clone() };
-            let t1 = parser.parse(&f, &cr);
+        for f in formulas.iter() {
+            let t1 = en_parser.parse(f, &cr);
             if matches!(t1, crate::expressions::parser::Node::ParseErrorKind { .. }) { continue; }
             let shown = to_localized_string(&t1, &cr, locale, language);
             let t2 = parser.parse(&shown, &cr);
-            if t1 != t2 { fails.push(format!("{loc} {f} is shown as {shown} which parses to another tree")); }
-            if loc == "en" {
+            if t1 != t2 { fails.push(format!("{loc}/{lang} {f} is shown as {shown} which parses to another tree")); }
+            if loc == "en" && lang == "en" {
                 let rc = to_rc_format(&t1);
-                parser.set_lexer_mode(crate::expressions::lexer::LexerMode::R1C1);
-                let t3 = parser.parse(&rc, &cr);
-                parser.set_lexer_mode(crate::expressions::lexer::LexerMode::A1);
-                if t1 != t3 { fails.push(format!("{loc} {f} is stored as {rc} which parses to another tree")); }
+                en_parser.set_lexer_mode(crate::expressions::lexer::LexerMode::R1C1);
+                let t3 = en_parser.parse(&rc, &cr);
+                en_parser.set_lexer_mode(crate::expressions::lexer::LexerMode::A1);
+                if t1 != t3 { fails.push(format!("{loc}/{lang} {f} is stored as {rc} which parses to another tree")); }
             }
         }
     }
